@@ -26,11 +26,28 @@ class CapturedPath:
         "Captured path cannot be computed; the group is nested in itself\n"+
         "Line: {}".format(self))
     nesting = nesting + (self,)
+    try:
+      return self._walk_items(nesting, False)
+    except (gfapy.NotFoundError, gfapy.InconsistencyError) as err:
+      # an edge without direction as first item: the item after it does not
+      # always tell from which side it is walked (e.g. the same edge twice);
+      # the other side is tried before the list is refused
+      first = self.items[0] if self.items else None
+      if first is None or \
+         not isinstance(first.line, gfapy.line.edge.GFA2) or \
+         self._oriented_segments_of_edge(first)[1]:
+        raise
+      try:
+        return self._walk_items(nesting, True)
+      except gfapy.Error:
+        raise err
+
+  def _walk_items(self, nesting, turn_first_edge):
     path = []
     prev_edge = False
     for item in self.items:
       path, prev_edge = self._push_item_on_se_path(path, prev_edge, item,
-                                                   nesting)
+                                                   nesting, turn_first_edge)
     return path, prev_edge
 
   def _is_first_item_edge(self, reverse = False):
@@ -42,7 +59,8 @@ class CapturedPath:
       return item.line._is_first_item_edge(reverse != (item.orient == "-"))
     return False
 
-  def _push_item_on_se_path(self, path, prev_edge, item, nesting = ()):
+  def _push_item_on_se_path(self, path, prev_edge, item, nesting = (),
+                            turn_first_edge = False):
     if isinstance(item.line, str):
       raise gfapy.RuntimeError(
         "Captured path cannot be computed; a reference has not been resolved\n"+
@@ -63,7 +81,8 @@ class CapturedPath:
           "Line: {}\n".format(self)+
           "Item: {}".format(item.line))
       if not path:
-        self._push_first_edge_on_se_path(path, self.items, nesting)
+        self._push_first_edge_on_se_path(path, self.items, nesting,
+                                         turn_first_edge)
       else:
         self._push_nonfirst_edge_on_se_path(path, item)
       prev_edge = True
@@ -129,7 +148,8 @@ class CapturedPath:
       oss = [oss[1].inverted(), oss[0].inverted()]
     return oss, directed
 
-  def _push_first_edge_on_se_path(self, path, items, nesting = ()):
+  def _push_first_edge_on_se_path(self, path, items, nesting = (),
+                                  turn = False):
     oriented_edge = items[0]
     oss, directed = self._oriented_segments_of_edge(oriented_edge)
     if len(items) > 1 and not directed:
@@ -160,6 +180,8 @@ class CapturedPath:
         pass
         # don't need to handle here other cases, as they will be handled
         # in the next iteration of push_item_on_se_path
+    if turn and not directed:
+      oss.reverse()
     path.append(oss[0])
     path.append(oriented_edge)
     path.append(oss[1])
